@@ -4,11 +4,14 @@ use std::sync::Arc;
 pub mod c01;
 pub mod c05;
 pub mod c06;
+pub mod c07;
 pub mod c08;
 pub mod c09;
+pub mod c11;
 pub mod c12;
 pub mod c13;
 pub mod c14;
+pub mod c17;
 pub mod c18;
 
 pub fn all() -> Vec<Arc<dyn Prop>> {
@@ -16,11 +19,14 @@ pub fn all() -> Vec<Arc<dyn Prop>> {
         Arc::new(c01::C01),
         Arc::new(c05::C05),
         Arc::new(c06::C06),
+        Arc::new(c07::C07),
         Arc::new(c08::C08),
         Arc::new(c09::C09),
+        Arc::new(c11::C11),
         Arc::new(c12::C12),
         Arc::new(c13::C13),
         Arc::new(c14::C14),
+        Arc::new(c17::C17),
         Arc::new(c18::C18),
     ]
 }
